@@ -58,13 +58,13 @@ def _check_main(run, P):
              minimum=6)
     run.rule("C03.infer", "kind inference is total and its fixed point is sound "
              "(shared with C09.total / C14.latch / C14.fixpoint)", minimum=20)
-    _guard(run, P)
-    _cmp(run, P)
-    _prec(run, P)
-    _const(run, P)
-    _run(run, P)
-    _loop(run, P)
-    _handlers(run, P)
+    run.do(_guard, run, P)
+    run.do(_cmp, run, P)
+    run.do(_prec, run, P)
+    run.do(_const, run, P)
+    run.do(_run, run, P)
+    run.do(_loop, run, P)
+    run.do(_handlers, run, P)
     run.rule("C03.zip", "sequences that are walked in parallel are ordered the same way "
              "(no zip() of one reversed or sorted sequence with another that is not)",
              minimum=5)
@@ -77,12 +77,12 @@ def _check_main(run, P):
              "path: slots assigned, successor set, exit taken, program stopped", minimum=8)
     run.rule("C03.pipeline", "every phase goes through the four preparation passes, in "
              "the order the passes assume, and what is lowered is their result", minimum=2)
-    _effects(run, P)
-    _pipeline(run, P)
-    _zip(run, P)
-    _splits(run, P)
-    _reduce(run, P)
-    _utypes(run, P)
+    run.do(_effects, run, P)
+    run.do(_pipeline, run, P)
+    run.do(_zip, run, P)
+    run.do(_splits, run, P)
+    run.do(_reduce, run, P)
+    run.do(_utypes, run, P)
     run.rule("C03.release", "release / allocation discipline that keeps the generated "
              "program from using freed storage (shared with C12.exit / C12.alloc / "
              "C12.lastuse / C12.move)", minimum=12)
@@ -117,7 +117,7 @@ def _check_main(run, P):
     for r in ("C14.progress", "C14.fixpoint"):
         run.rule_docs[r] = ""
         run.minimum[r] = 0
-    c14._worklist(run, P)
+    run.do(c14._worklist, run, P)
     for o in run.obs:
         if o.rule in ("C14.progress", "C14.fixpoint"):
             o.rule = "C03.infer"
